@@ -280,11 +280,15 @@ def _guess_sender_key(
         headers = recipient.headers()
         skid = headers.get('skid')
         if skid:
-            return key.get_by_kid(skid)  # type: ignore[return-value]
+            skey = key.get_by_kid(skid)
+            skey.check_use("enc")
+            return skey  # type: ignore[return-value]
         if use_random:
             skey = key.pick_random_key(headers["alg"])
             if skey is not None:
+                skey.check_use("enc")
                 recipient.add_header("skid", skey.kid)
                 return skey  # type: ignore[return-value]
         raise ValueError("Invalid key")
+    key.check_use("enc")
     return key
